@@ -10,19 +10,42 @@ func init() {
 	// ---- C09 deadline
 	register(&Prop{ID: "C09", Pkgs: []HarnessPkg{{Dir: "deadline", Name: "deadline"}}, InitPkgs: []string{"deadline"}, InstrDirs: []string{"deadline"},
 		Runs: func(tier string) []gosym.RunConfig {
-			n, steps := 2, 30
-			if tier == "thorough" {
-				n, steps = 4, 48
+			// histories with every kind symbolic (n Sets), plus one run per pattern of kinds
+			// (zero / past / future per Set) for longer histories: the pattern fixes which
+			// timers and callbacks exist, which keeps the product of goroutine locations small
+			nSym, steps := 2, 40
+			out := []gosym.RunConfig{{Name: fmt.Sprintf("sched-n%d", nSym), Entry: "VerifDeadline", Sched: true,
+				Params: map[string]int64{"n": int64(nSym), "steps": int64(steps), "obs": 1, "kinds": -1}}}
+			add := func(nPat int, steps int64, budget int) {
+				pats := int64(1)
+				for i := 0; i < nPat; i++ {
+					pats *= 3
+				}
+				for pat := int64(0); pat < pats; pat++ {
+					name, q := "", pat
+					for i := 0; i < nPat; i++ {
+						name += string("zpf"[q%3])
+						q /= 3
+					}
+					out = append(out, gosym.RunConfig{Name: fmt.Sprintf("sched-n%d-%s", nPat, name), Entry: "VerifDeadline", Sched: true,
+						BudgetSec: budget, Optional: budget > 0,
+						Params: map[string]int64{"n": int64(nPat), "steps": steps, "obs": 1, "kinds": pat}})
+				}
 			}
-			return []gosym.RunConfig{{Name: fmt.Sprintf("sched-n%d", n), Entry: "VerifDeadline", Sched: true,
-				Params: map[string]int64{"n": int64(n), "steps": int64(steps), "obs": 1}}}
+			add(3, 40, 0)
+			if tier == "thorough" {
+				// four Sets: each pattern gets a time budget; a pattern that exceeds it is reported
+				// as not covered (NOTE line), never as held
+				add(4, 56, 120)
+			}
+			return out
 		},
 		Bounds: func(tier string) []string {
-			n, steps := 2, 30
+			extra := ""
 			if tier == "thorough" {
-				n, steps = 4, 48
+				extra = "; 4 Set calls for each of the 3^4 patterns, each within a 120 s budget (patterns over budget are listed as not covered)"
 			}
-			return []string{fmt.Sprintf("%d Set calls (zero / past / future times, symbolic), symbolic clock advances between them, every interleaving of the setter goroutine, timer dispatches and timer callbacks at the granularity of lock/channel operations within %d scheduler steps per phase (step bound discharged)", n, steps),
+			return []string{"2 Set calls with symbolic kinds, and 3 Set calls for each of the 3^3 patterns of kinds (zero / past / future)" + extra + "; all times and clock advances symbolic; every interleaving of the setter goroutine, an observer, timer dispatches and timer callbacks at the granularity of lock/channel operations within 40 (56) scheduler steps per phase (step bound discharged)",
 				"up to n timer callbacks outstanding at once"}
 		},
 		Assume: []string{
@@ -40,7 +63,7 @@ func init() {
 				{Name: "packetio-r1w1", PkgPath: modulePath + "/packetio", Entry: "VerifBufSched", Sched: true, Races: true, SmallInts: 32, Unwind: 6, AssertPrefix: "C19:",
 					Params: map[string]int64{"readers": 1, "writers": 1, "close": 1, "deadline": 0, "steps": 60}},
 				{Name: "deadline-n2", PkgPath: modulePath + "/deadline", Entry: "VerifDeadline", Sched: true, Races: true, AssertPrefix: "C19:",
-					Params: map[string]int64{"n": 2, "obs": 0, "steps": 40}},
+					Params: map[string]int64{"n": 2, "obs": 0, "steps": 40, "kinds": -1}},
 			}
 			if tier == "thorough" {
 				rs = append(rs, gosym.RunConfig{Name: "packetio-r2w2", PkgPath: modulePath + "/packetio", Entry: "VerifBufSched", Sched: true, Races: true, SmallInts: 32, Unwind: 6, AssertPrefix: "C19:",
